@@ -217,7 +217,7 @@ structure Inv (n : Node) : Prop where
   nodup : KeysNodup n.channels
   lrel : ∀ k, OptWeaker (lookup k n.store.listeners) (lookup k n.listeners)
 
-theorem inv_init (h : Nat) (r : Bool) : Inv (Node.init h r) :=
+theorem inv_init (h : Nat) (r : Bool) (mc : Nat := maxChannelsDefault) : Inv (Node.init h r mc) :=
   ⟨rfl, rfl, List.nodup_nil, fun _ => trivial⟩
 
 theorem inv_newChannel {n : Node} (i : Inv n) (d : Nat) : Inv (newChannel n d).1 := by
@@ -226,7 +226,9 @@ theorem inv_newChannel {n : Node} (i : Inv n) (d : Nat) : Inv (newChannel n d).1
   · exact i
   · split
     · exact i
-    · exact ⟨i.hwm, by simp only [i.chans], i.nodup.insert _ _, i.lrel⟩
+    · split
+      · exact i
+      · exact ⟨i.hwm, by simp only [i.chans], i.nodup.insert _ _, i.lrel⟩
 
 theorem inv_setup {n : Node} (i : Inv n) (d key ft fv : Nat) (ins : List OutPoint) :
     Inv (setup n d key ft fv ins).1 := by
@@ -333,7 +335,9 @@ theorem hwm_step {n : Node} (i : Inv n) (op : Op) : n.hwm ≤ (step n op).1.hwm 
     simp only [step, newChannel]
     split
     · exact Nat.le_refl _
-    · split <;> exact Nat.le_refl _
+    · split
+      · exact Nat.le_refl _
+      · split <;> exact Nat.le_refl _
   | setup d k t v ins =>
     simp only [step, setup]
     split <;> exact Nat.le_refl _
@@ -381,12 +385,14 @@ theorem ready_step_of_ne_heartbeat {n : Node} (i : Inv n) {d k : Nat}
     · exact h
     · split
       · exact h
-      · rename_i hn
-        simp only
-        rw [lookup_insert]
-        split
-        · rename_i hd; subst hd; rw [hn] at h; cases h
+      · split
         · exact h
+        · rename_i hn
+          simp only
+          rw [lookup_insert]
+          split
+          · rename_i hd; subst hd; rw [hn] at h; cases h
+          · exact h
   | setup d' key t v ins =>
     simp only [step, setup]
     split
@@ -465,5 +471,140 @@ theorem prunable_ready_true {n : Node} {k : Nat} (h : prunable n (.ready k) = tr
   split at h
   · rename_i l hl; exact ⟨l, hl, h⟩
   · cases h
+
+/-! ### capacity (`channels.len() >= policy.max_channels()` in `find_or_create_channel`) -/
+
+theorem erase_eq_self_of_lookup_none {β} {d : Nat} {l : List (Nat × β)} (h : lookup d l = none) :
+    erase d l = l := by
+  induction l with
+  | nil => rfl
+  | cons e r ih =>
+    obtain ⟨k', v'⟩ := e
+    simp only [lookup] at h
+    by_cases hk : k' = d
+    · simp [hk] at h
+    · simp only [hk, if_false] at h
+      unfold erase at ih ⊢
+      simp only [List.filter_cons, ne_eq, hk, not_false_eq_true, decide_true, if_true]
+      rw [ih h]
+
+theorem length_erase_le {β} (d : Nat) (l : List (Nat × β)) : (erase d l).length ≤ l.length :=
+  List.length_filter_le _ _
+
+/-- erasing a present key of a list with distinct keys removes exactly one entry -/
+theorem length_erase_of_lookup {β} {d : Nat} {v : β} {l : List (Nat × β)} (hn : KeysNodup l)
+    (h : lookup d l = some v) : (erase d l).length + 1 = l.length := by
+  induction l with
+  | nil => simp [lookup] at h
+  | cons e r ih =>
+    obtain ⟨k', v'⟩ := e
+    unfold KeysNodup at hn
+    simp only [List.map_cons] at hn
+    obtain ⟨hx, hr⟩ := List.nodup_cons.mp hn
+    simp only [lookup] at h
+    by_cases hk : k' = d
+    · subst hk
+      have hnone : lookup k' r = none := by
+        cases hl : lookup k' r with
+        | none => rfl
+        | some w => exact absurd (List.mem_map.mpr ⟨(k', w), lookup_mem hl, rfl⟩) hx
+      have he : erase k' ((k', v') :: r) = erase k' r := by
+        unfold erase; simp
+      rw [he, erase_eq_self_of_lookup_none hnone]; rfl
+    · simp only [hk, if_false] at h
+      have he : erase d ((k', v') :: r) = (k', v') :: erase d r := by
+        unfold erase; simp [hk]
+      rw [he]; simp only [List.length_cons]
+      have := ih hr h
+      omega
+
+/-- replacing the value of a present key keeps the number of entries -/
+theorem length_insert_of_lookup {β} {d : Nat} {v w : β} {l : List (Nat × β)} (hn : KeysNodup l)
+    (h : lookup d l = some v) : (insert d w l).length = l.length := by
+  unfold insert
+  simp only [List.length_cons]
+  exact length_erase_of_lookup hn h
+
+theorem length_insert_of_lookup_none {β} {d : Nat} {w : β} {l : List (Nat × β)}
+    (h : lookup d l = none) : (insert d w l).length = l.length + 1 := by
+  unfold insert
+  rw [erase_eq_self_of_lookup_none h]; rfl
+
+theorem maxChannels_step (n : Node) (op : Op) : (step n op).1.maxChannels = n.maxChannels := by
+  cases op with
+  | newChannel d => simp only [step, newChannel]; split; · rfl
+                    split; · rfl
+                    split <;> rfl
+  | setup d k t v ins => simp only [step, setup]; split <;> rfl
+  | forget d => simp only [step, forget]; split; · rfl
+                split <;> rfl
+  | heartbeat => rfl
+  | addBlock txs => simp only [step, addBlock]; split <;> rfl
+  | removeBlock txs => simp only [step, removeBlock]; split; · rfl
+                       split <;> rfl
+  | restart => rfl
+
+/-- the channel map never grows beyond the configured capacity: only `new_channel` adds an entry, and only below
+    the limit; `setup_channel` replaces the stub under the same id; forget/prune/restart do not add entries -/
+theorem capacity_step {n : Node} (i : Inv n) (hc : n.channels.length ≤ n.maxChannels) (op : Op) :
+    (step n op).1.channels.length ≤ n.maxChannels := by
+  cases op with
+  | newChannel d =>
+    simp only [step, newChannel]
+    split
+    · exact hc
+    · split
+      · exact hc
+      · rename_i hlt
+        split
+        · exact hc
+        · rename_i hnone
+          simp only
+          rw [length_insert_of_lookup_none hnone]
+          omega
+  | setup d k t v ins =>
+    simp only [step, setup]
+    split
+    · exact hc
+    · exact hc
+    · rename_i bh hs
+      simp only
+      rw [length_insert_of_lookup i.nodup hs]; exact hc
+  | forget d =>
+    simp only [step, forget]
+    split
+    · exact hc
+    · split
+      · exact Nat.le_trans (length_erase_le _ _) hc
+      · exact hc
+  | heartbeat =>
+    simp only [step, heartbeat]
+    exact Nat.le_trans (List.length_filter_le _ _) hc
+  | addBlock txs =>
+    simp only [step, addBlock]
+    split <;> exact hc
+  | removeBlock txs =>
+    simp only [step, removeBlock]
+    split
+    · exact hc
+    · split <;> exact hc
+  | restart =>
+    simp only [step, restart]
+    rw [i.chans]; exact hc
+
+theorem maxChannels_run (n : Node) (ops : List Op) : (run n ops).maxChannels = n.maxChannels := by
+  induction ops generalizing n with
+  | nil => rfl
+  | cons op ops ih => simp only [run]; rw [ih, maxChannels_step]
+
+theorem capacity_run {n : Node} (i : Inv n) (hc : n.channels.length ≤ n.maxChannels) (ops : List Op) :
+    (run n ops).channels.length ≤ n.maxChannels := by
+  induction ops generalizing n with
+  | nil => exact hc
+  | cons op ops ih =>
+    simp only [run]
+    have := ih (inv_step i op) (by rw [maxChannels_step]; exact capacity_step i hc op)
+    rw [maxChannels_step] at this
+    exact this
 
 end VlsModel.Prune
